@@ -120,14 +120,15 @@ def run_roundtrip(args, kind="roundtrip"):
     pid, root, base = args
     sys.path.insert(0, VERIF)
     from sa.main import run_property
-    tmp = roundtrip_copy(root) if kind == "roundtrip" else (rename_copy(root) if kind == "rename" else extract_return_copy(root))
+    tmp = {"roundtrip": roundtrip_copy, "rename": rename_copy, "extract-return": extract_return_copy, "invert-if": invert_if_copy}[kind](root)
     try:
         rc, rep = run_property(pid, "quick", tmp, evidence_dir=os.path.join(tmp, "_ev"), quiet=True)
         refuted = {ob.key for ob in rep.obs if ob.status == "REFUTED"}
         undec = {ob.key for ob in rep.obs if ob.status == "UNDECIDED"}
         b_rc, b_ref, b_und = base
         ok = rc == b_rc and refuted == b_ref and undec == b_und
-        what = {"roundtrip": "ast.unparse round trip", "rename": "renaming all function locals", "extract-return": "binding every returned expression to a temporary first"}[kind]
+        what = {"roundtrip": "ast.unparse round trip", "rename": "renaming all function locals", "extract-return": "binding every returned expression to a temporary first",
+                "invert-if": "swapping the branches of every if/else under the negated test"}[kind]
         why = f"verdict and keys unchanged after {what}" if ok else f"rc {b_rc}->{rc}; refuted diff {sorted(refuted ^ b_ref)[:4]}; undecided diff {sorted(undec ^ b_und)[:4]}"
         if not ok and rc == 2:
             why += " | " + " ".join(ln for ln in getattr(rep, "output", []) if ln.startswith("ANALYSIS"))[:400]
@@ -154,13 +155,14 @@ def validate(pids, root="/repo", jobs=16, verbose=True):
         futs += [ex.submit(run_roundtrip, (pid, root, base_full[pid])) for pid in pids]
         futs += [ex.submit(run_rename, (pid, root, base_full[pid])) for pid in pids]
         futs += [ex.submit(run_extract, (pid, root, base_full[pid])) for pid in pids]
+        futs += [ex.submit(run_invert, (pid, root, base_full[pid])) for pid in pids]
         for f in futs:
             results.append(f.result())
     bad = [r for r in results if not r["ok"]]
     if verbose:
         for r in results:
             print(f"selftest {'ok  ' if r['ok'] else 'FAIL'} {r['id']}: {r['why']}")
-        print(f"selftest: {len(results) - len(bad)}/{len(results)} passed ({len(mutants)} mutants, {len(pids)} unparse round trips, {len(pids)} local-rename and {len(pids)} extract-return round trips)")
+        print(f"selftest: {len(results) - len(bad)}/{len(results)} passed ({len(mutants)} mutants, {len(pids)} unparse round trips, {len(pids)} local-rename, {len(pids)} extract-return and {len(pids)} invert-if round trips)")
     return bad, results
 
 
@@ -224,3 +226,34 @@ def extract_return_copy(root):
 
 def run_extract(args):
     return run_roundtrip(args, kind="extract-return")
+
+
+# ------------------------------------------------------------------------------------------------
+class _InvertIf(ast.NodeTransformer):
+    """`if c: A else: B`  ->  `if not c: B else: A` for every plain if/else (elif chains keep their head)"""
+    def visit_If(self, node):
+        self.generic_visit(node)
+        if node.orelse and not (len(node.orelse) == 1 and isinstance(node.orelse[0], ast.If)):
+            t = node.test
+            nt = t.operand if isinstance(t, ast.UnaryOp) and isinstance(t.op, ast.Not) else ast.UnaryOp(op=ast.Not(), operand=t)
+            return ast.copy_location(ast.If(test=nt, body=node.orelse, orelse=node.body), node)
+        return node
+
+
+def invert_if_copy(root):
+    tmp = make_copy(root)
+    for dp, dn, fns in os.walk(os.path.join(tmp, "cola")):
+        for f in fns:
+            if f.endswith(".py"):
+                p = os.path.join(dp, f)
+                with open(p) as fh:
+                    tree = ast.parse(fh.read())
+                tree = _InvertIf().visit(tree)
+                ast.fix_missing_locations(tree)
+                with open(p, "w") as fh:
+                    fh.write(ast.unparse(tree) + "\n")
+    return tmp
+
+
+def run_invert(args):
+    return run_roundtrip(args, kind="invert-if")
